@@ -16,9 +16,21 @@ _INSTALLED = {}
 CONFIG = {"cap_rules": 60, "every": 10, "function_invariant": False, "suspend": 0}
 
 
+_BORN = {}  # id(table) -> table: tables constructed (TableMethod.__init__) under the monitor
+
+
 def reset():
     _SHADOW.clear()
     _KEYS.clear()
+    _BORN.clear()
+
+
+def history_known(table):
+    """The monitor saw this table being constructed, hence every insertion since.  Tables
+    that come out of pickle / copy (no __init__) have an unknown history.  Deliberately not
+    derived from the table's own fields: a table that fails to store a rule must not look
+    like one with an unknown history."""
+    return _BORN.get(id(table)) is table
 
 
 def shadow_of(table):
@@ -66,7 +78,7 @@ def fixed_point_and_monotone(self, rule_key, OLD):
     cx = base.ctx()
     if CONFIG["suspend"]:
         return True  # scratch tables built by the extractor while minimising
-    if len(self._rules) != len(shadow_of(self)) + 1:
+    if not history_known(self):
         # a table met with content (unpickled): its history is unknown, nothing is judged
         cx.count("table.unknown_history_not_judged")
         return True
@@ -169,6 +181,14 @@ def install(function_invariant=False):
         )
         forest.TableMethod.add_rule_key = wrapped
         _INSTALLED["table"] = orig
+        orig_init = forest.TableMethod.__init__
+
+        def __init__(self, *a, **k):
+            orig_init(self, *a, **k)
+            _BORN[id(self)] = self
+
+        forest.TableMethod.__init__ = __init__
+        _INSTALLED["table_init"] = orig_init
     if function_invariant and "function" not in _INSTALLED:
         _INSTALLED["function"] = forest.Function
         forest.Function = icontract.invariant(histogram_consistent, error=histogram_error)(
